@@ -55,7 +55,7 @@ from ..engine.terms import Poly, TermEval
 from ..engine.util import find_calls, method_call, nodes_with_call, u
 from ._c02_util import (BDA, BM, MOD, MinMax, Region, Roles, Wrong, all_calls, at, at_least, callee, created_as,
                         ctor_args,
-                        discover_roles, fields_of, has, is_zero, negative_established, nonzero_established, ordered,
+                        discover_roles, entry, entry_bind, fields_of, has, is_zero, negative_established, nonzero_established, ordered,
                         zero_test,
                         prep, q, regions, sc, strictly, table_sources, test_paths, the_call, value_before, writes)
 
@@ -424,7 +424,7 @@ def check_inv(run: Run, prog: Program) -> None:
 def check_avail(run: Run, prog: Program) -> None:
     roles = _roles(prog)
     for fname, want in (("consume", ("soc_upper_bound", "soc")), ("supply", ("soc", "soc_lower_bound"))):
-        fn = prep(prog, q(prog, fname))
+        fn = entry(prog, fname)
         run.analysed(fn.qual)
         hr = roles.headroom.get(fname)
         if hr is None:
@@ -548,18 +548,18 @@ def check_sign(run: Run, prog: Program) -> None:
     req_param: str | None = None
     te = TermEval()
     for fname, sign in (("consume", 1), ("supply", -1)):
-        fn = prep(prog, q(prog, fname))
+        fn = entry(prog, fname)
         run.analysed(fn.qual)
         regs = regions(fn.node)
         passed_on = set()
         for _r, _p, e in all_calls(regs, sc(prog, "ieb")):
             passed_on |= {v.id for v in positional(e.node, ieb).values() if isinstance(v, ast.Name)}  # type: ignore[arg-type]
-        own = [x for x in _own_params(fn) if x not in passed_on]
+        own = [x for x in _own_params(fn) if x not in passed_on and x not in entry_bind(prog, fname)]
         if len(own) != 1:
             raise AnalysisError(f"{fn.qual}: the request parameter was not identified ({own})")
         args = roles.entry_args[fname]
         if req_param is None:
-            hits = [k for k in dpp if k in args and te.ev(args[k]) == Poly.atom(own[0])]
+            hits = [k for k in dpp if k in args and te.ev(args[k]) in (Poly.atom(own[0]), -Poly.atom(own[0]))]
             if len(hits) != 1:
                 raise AnalysisError(f"{fn.qual}: the request is not handed to _distribute_power unchanged")
             req_param = hits[0]
@@ -1295,6 +1295,10 @@ def check_adm_min(run: Run, prog: Program) -> None:
     for fld, key, op in (("exclusion_upper", "eu", "max"), ("exclusion_lower", "el", "min")):
         e = enf["terms"].get(fld)
         ok = e == ("sum_g", op, (("leaf", ("bat", key)), ("sum_i", ("inv", key))))
+        if not ok:
+            # second reading of the same form, on the symbolic result of the function with its helpers
+            # spliced in (`getattr(x, "name")` is `x.name`)
+            ok = _per_group_bound(prog, fld, op)
         run.check(ok, "C02.ADM", fn.qual, f"{fld} = Σ_g {op}(battery aggregate, Σ_i inverter)",
                   f"the {fld.replace('_', ' ')} bound enforced at admission is not the per-group "
                   f"{op}(battery exclusion, Σ inverter exclusion) summed over the groups (found {e}): when the "
@@ -1317,6 +1321,64 @@ def check_adm_min(run: Run, prog: Program) -> None:
               "a group's minimum power is not max(battery exclusion, smallest inverter exclusion): the "
               "dominance of the enforced exclusion bound over Σ_g min_power_g is not established",
               node=ar.node, file=ar.file)
+
+
+class _GetAttr(ast.NodeTransformer):
+    """`getattr(x, "name")` with a constant name is the attribute read `x.name`."""
+
+    def visit_Call(self, node: ast.Call) -> ast.AST:  # noqa: N802
+        self.generic_visit(node)
+        if isinstance(node.func, ast.Name) and node.func.id == "getattr" and len(node.args) == 2 and not node.keywords \
+                and isinstance(node.args[1], ast.Constant) and isinstance(node.args[1].value, str) \
+                and node.args[1].value.isidentifier():
+            return ast.copy_location(ast.Attribute(value=node.args[0], attr=node.args[1].value, ctx=ast.Load()), node)
+        return node
+
+
+def _per_group_bound(prog: Program, fld: str, op: str) -> bool:
+    """Every result of `_get_bounds` has `<fld> = sum(op(<battery>.power_bounds.<fld>, sum(<inverter>.
+    active_power_<fld>_bound for <inverter> in <inverters>)) for <battery>, <inverters> in <pairs parameter>)`
+    (operands of op in either order; one clause per comprehension, no filter)."""
+    fn = prep(prog, f"{BM}._get_bounds")
+    params = _own_params(fn)
+    try:
+        flds = fields_of(prog, "microgrid._power_distributing.result:PowerBounds")
+    except (AnalysisError, KeyError):
+        return False
+    inv_attr = f"active_power_{fld}_bound"
+    n = 0
+    for p, _st in regions(fn.node)[0].paths:
+        if p.exit != "return":
+            continue
+        n += 1
+        ret = _GetAttr().visit(copy.deepcopy(p.ret)) if p.ret is not None else None
+        if not (isinstance(ret, ast.Call) and callee(ret) == "PowerBounds" and params):
+            return False
+        e = positional(ret, flds).get(fld)
+        if not (isinstance(e, ast.Call) and u(e.func) == "sum" and len(e.args) == 1 and not e.keywords
+                and isinstance(e.args[0], (ast.GeneratorExp, ast.ListComp)) and len(e.args[0].generators) == 1):
+            return False
+        g = e.args[0].generators[0]
+        if g.ifs or g.is_async or u(g.iter) != params[0] or not (
+                isinstance(g.target, ast.Tuple) and len(g.target.elts) == 2 and all(
+                    isinstance(x, ast.Name) for x in g.target.elts)):
+            return False
+        bat, invs = g.target.elts[0].id, g.target.elts[1].id  # type: ignore[attr-defined]
+
+        def is_bat(x: ast.AST) -> bool:
+            return u(x) == f"{bat}.power_bounds.{fld}"
+
+        def is_inv(x: ast.AST) -> bool:
+            if not (isinstance(x, ast.Call) and u(x.func) == "sum" and len(x.args) == 1 and not x.keywords
+                    and isinstance(x.args[0], (ast.GeneratorExp, ast.ListComp)) and len(x.args[0].generators) == 1):
+                return False
+            c = x.args[0].generators[0]
+            return not c.ifs and not c.is_async and isinstance(c.target, ast.Name) and u(c.iter) == invs \
+                and u(x.args[0].elt) == f"{c.target.id}.{inv_attr}"
+
+        if not _either(_two(e.args[0].elt, op), is_bat, is_inv):
+            return False
+    return n > 0
 
 
 def check_adm_order(run: Run, prog: Program) -> None:
